@@ -1,4 +1,5 @@
 import Amqp.Frame
+import Amqp.FrameHeader
 import Driver.Util
 
 namespace Driver.Frame
@@ -47,6 +48,14 @@ def step (st : Nat × DecSt) (ws : List String) : Option ((Nat × DecSt) × Stri
     let kind : SKind → String := fun k => match k with
       | .whole => "whole" | .first => "first" | .cont => "cont" | .last => "last"
     pure (st, String.intercalate " " (ps.map (fun kc => s!"{kind kc.1}:{kc.2.length}")))
+  | ["hdr", layer, bytes] => do
+    let bs := (← unhex bytes).map (·.toNat)
+    let r := if layer == "sasl" then Amqp.FrameHeader.decodeSasl bs else Amqp.FrameHeader.decodeAmqp bs
+    pure (st, match r with
+      | .header ch _ => s!"header {ch}"
+      | .tooShort => "tooShort"
+      | .notImplemented => "notImplemented"
+      | .panic => "panic")
   | ["dinit", m] => do
     pure ((← m.toNat?, decInit), "ok")
   | ["dfeed", chunk] => do
